@@ -367,6 +367,11 @@ func (s *EtcdStore) UpdateTopicConfig(ctx context.Context, cfg *metadatapb.Topic
 
 // CreatePartitions expands a topic and writes new partition state entries.
 func (s *EtcdStore) CreatePartitions(ctx context.Context, topic string, partitionCount int32) error {
+	// Hold persistMu from the in-memory change to the snapshot write, like
+	// CreateTopic: otherwise the snapshot watcher can reload the old snapshot in
+	// between and the acknowledged growth is persisted (and served) as the old count.
+	s.persistMu.Lock()
+	defer s.persistMu.Unlock()
 	meta, err := s.metadata.Metadata(ctx, []string{topic})
 	if err != nil {
 		return err
@@ -395,7 +400,7 @@ func (s *EtcdStore) CreatePartitions(ctx context.Context, topic string, partitio
 	if int32(len(newPartitions)) != partitionCount-current {
 		return fmt.Errorf("metadata: expected %d new partitions, got %d", partitionCount-current, len(newPartitions))
 	}
-	if err := s.persistSnapshot(ctx); err != nil {
+	if err := s.persistSnapshotLocked(ctx); err != nil {
 		return err
 	}
 	for _, part := range newPartitions {
